@@ -331,7 +331,8 @@ def validateStr (acc : List Char → Bool) : PyVal → Except Err (List Char)
   | .str s => if acc s then .ok s else .error .value
   | _ => .error .type
 
-/-- a regular expression of the fragment used by the predefined string types -/
+/-- a regular expression of the fragment used by the predefined string types; the flags of a compiled
+pattern (IGNORECASE, VERBOSE, DOTALL, MULTILINE, ASCII) are resolved by the translation into this AST -/
 inductive Re where
   | eps
   | cls (neg : Bool) (ranges : List (Nat × Nat))    -- `[a-z]`, `[^@ ]`, a literal, `.` = `[^\n]`
@@ -340,6 +341,8 @@ inductive Re where
   | star (a : Re)
   | eol                                             -- `$`: at the end or before a final newline
   | bol                                             -- `^`: at the start
+  | meol                                            -- `$` under re.MULTILINE: at the end or before any newline
+  | mbol                                            -- `^` under re.MULTILINE: at the start or after any newline
 deriving Repr, Inhabited
 
 def inRanges (n : Nat) : List (Nat × Nat) → Bool
@@ -369,6 +372,8 @@ def Re.ends (s : Array Char) : Re → Nat → List Nat
   | .star a, i => closure (a.ends s) (s.size + 1) [i] [i]
   | .eol, i => if i = s.size ∨ (i + 1 = s.size ∧ s[i]? = some '\n') then [i] else []
   | .bol, i => if i = 0 then [i] else []
+  | .meol, i => if i = s.size ∨ s[i]? = some '\n' then [i] else []
+  | .mbol, i => if i = 0 ∨ s[i - 1]? = some '\n' then [i] else []
 
 /-- `re.match(r, s) is not None` -/
 def Re.accepts (r : Re) (s : List Char) : Bool := !(r.ends s.toArray 0).isEmpty
